@@ -1,5 +1,6 @@
 """C10 -- at most 10 connections; excess get 503 and close; dead connections are reaped."""
 from ..core import AnalysisError, term_s, subterms
+from ..paths import PathEnum
 from . import srv, conn
 from .c09 import pairing, hangup, closed_enqueue, is_connections
 from .conn import leaves, ret_kind
@@ -34,8 +35,8 @@ def run(ctx):
     ctx.rule("R10.5", "no descriptor-leaking API in server.rs / connection.rs")
     ctx.rule("R10.6", "the sweep lies on every path to Ok of requests()")
     ctx.rule("R10.7", "a Closed connection cannot become pending again (no enqueue when Closed; hang-up clears the write buffer)")
-    ctx.guarded("R10.1", "cap", lambda: cap(ctx))
-    ctx.guarded("R10.2", "refusal", lambda: refusal(ctx))
+    ctx.guarded("R10.1", "cap", lambda: _either(ctx, "R10.1", cap, cap_inlined))
+    ctx.guarded("R10.2", "refusal", lambda: _either(ctx, "R10.2", refusal, refusal_inlined))
     ctx.guarded("R10.3", "message", lambda: message(ctx))
     ctx.guarded("R10.4", "pairing", lambda: pairing(ctx, "R10.4"))
     ctx.guarded("R10.5", "leaks", lambda: leaks(ctx))
@@ -56,6 +57,129 @@ def run(ctx):
     ctx.rule("R10.10", "descriptors received with a request that is then rejected do not stay open in the connection: every ParseError exit of try_read empties self.files (= C11 R11.1 for `files`)")
     from . import c11
     ctx.guarded("R10.10", "rejected-files", lambda: c11.reset(_Remap(ctx, "R10.10"), only_fields=("files",)))
+
+
+def _either(ctx, rule, first, second):
+    """Two decision procedures for the same clauses (today's division of labour between requests() and
+    handle_new_connection, and the accept path as one piece of code); a violation only when neither establishes them."""
+    from .c06 import _Rec
+    a = _Rec(ctx)
+    try:
+        first(a)
+    except AnalysisError as e:
+        a.fail(rule, "cannot-establish|as-divided-today", str(e))
+    if not a.failed():
+        return a.replay(ctx)
+    b = _Rec(ctx)
+    try:
+        second(b)
+    except AnalysisError as e:
+        b.fail(rule, "cannot-establish|accept-path", str(e))
+    if not b.failed() or len(b.failed()) < len(a.failed()):
+        b.replay(ctx)
+        ctx.ob(rule, "decided-on-the-accept-path", True, "the capacity test is not where it is today (%d clause(s) not matched); decided on requests() with handle_new_connection traversed inline" % len(a.failed()))
+        return
+    a.replay(ctx)
+    for (r_, key, ok, msg, loc, witness) in b.failed():
+        ctx.ob(r_, "accept-path|" + key, ok, "(accept path as one) " + msg, loc, witness)
+
+
+def _accept_paths(ctx):
+    """Paths of requests() with handle_new_connection (and new helpers) traversed inline that accept a connection:
+    (fn, [(leaf, accept event, at capacity: True / False / None, serving: bool)])."""
+    from ..lin import Lin, State
+    from ..panics import Tr
+    facts = ctx.facts
+    mc = facts.const_int("server::MAX_CONNECTIONS")
+    fn = facts.fn(srv.REQUESTS)
+    ctx.touched(fn)
+    if facts.has_fn(srv.HNC):
+        ctx.touched(srv.HNC)
+    lv = PathEnum(fn, facts, lower=True, inline_also=lambda p_, a_: p_ == srv.HNC, max_paths=60000).run()
+    out = []
+    for lf in lv:
+        acc = calls(lf, "accept")
+        if not acc:
+            continue
+        st = State()
+        tr = Tr(facts, fn, st)
+        LEN = None
+        for e in lf.events:
+            if e[0] == "call" and last_seg(e[3]) == "len" and e[4][2] and is_connections(e[4][2][0]) and LEN is None:
+                LEN = tr.lin(e[4])
+            if e[0] == "cond":
+                tr.assume_cond(e[3], e[4])
+        full = None
+        if LEN is not None:
+            st.sharpen()
+            if st.inconsistent():
+                continue
+            if st.entails_eq(LEN - Lin.const(mc)):
+                full = True
+            else:
+                s2 = st.copy()
+                s2.add_eq(LEN - Lin.const(mc))
+                s2.sharpen()
+                if s2.inconsistent():
+                    full = False
+        i = lf.events.index(acc[0])
+        serving = any(e[0] == "call" and (("HashMap" in e[3] and last_seg(e[3]) in ("insert", "entry", "try_insert")) or e[3] == S + "epoll_add") for e in lf.events[i:])
+        out.append((lf, acc[0], full, serving))
+    return fn, out
+
+
+def cap_inlined(ctx):
+    facts = ctx.facts
+    mc = facts.const_int("server::MAX_CONNECTIONS")
+    ctx.ob("R10.1", "MAX_CONNECTIONS", mc == 10, "MAX_CONNECTIONS evaluates to %d" % mc)
+    fn, paths = _accept_paths(ctx)
+    n = 0
+    for lf, acc, full, serving in paths:
+        if serving:
+            n += 1
+            ctx.ob("R10.1", "accept|behind-cap-test", full is False, "a connection is accepted for serving only on a path that established connections.len() != %d (established: at capacity = %s)" % (mc, full), fn.loc(acc[1]))
+    ctx.ob("R10.1", "floor", n >= 1, "%d accepting-for-serving path(s) of requests()" % n)
+    _insert_only_in_accept_path(ctx)
+
+
+def refusal_inlined(ctx):
+    fn, paths = _accept_paths(ctx)
+    n = 0
+    for lf, acc, full, serving in paths:
+        if serving:
+            continue
+        n += 1
+        from .c06 import direct_subterms
+
+        def from_accept(t):
+            for st_ in direct_subterms(t):
+                if isinstance(st_, tuple) and st_:
+                    src = payload_of(st_)
+                    if src is not None and is_call(src, "accept"):
+                        return True
+            return False
+        accepted = None
+        for (t, c, _b) in lf.conds:
+            from .util import result_test
+            o = result_test(t, c, lambda y: is_call(y, "accept"))
+            if o is not None:
+                accepted = o == "ok"
+        users = [e for e in lf.events if e[0] == "call" and any(from_accept(a) for a in e[4][2])]
+        w = [e for e in users if last_seg(e[3]) == "write"]
+        if accepted is False:
+            n -= 1
+            continue        # accept() itself failed: nobody was accepted, served or refused
+        elif not w and full is not True:
+            # accepted below capacity but not registered: an error exit of the serving branch (set_nonblocking failed, ...)
+            n -= 1
+            rk = ret_kind(lf)
+            ctx.ob("R10.2", "accepted-then-error-exit", rk is not None and rk[0] in ("Err", "prop"), "a connection accepted below capacity that is neither registered nor answered lies on an error exit", fn.loc(acc[1]))
+            continue
+        else:
+            ok = accepted is True and len(w) == 1 and len(users) == 1 and look(w[0][4][2][1]) in (("static", "server::SERVER_FULL_ERROR_MESSAGE"), ("deref", ("static", "server::SERVER_FULL_ERROR_MESSAGE")))
+        ctx.ob("R10.2", "refusal|only-at-capacity", full is True, "a connection is accepted only to be refused on a path that established connections.len() == MAX_CONNECTIONS (established: %s)" % full, fn.loc(acc[1]))
+        ctx.ob("R10.2", "refusal|accept-write-drop", ok, "at capacity: one accept, one write of SERVER_FULL_ERROR_MESSAGE to the accepted stream (a local nothing else receives, dropped when its scope ends), no epoll_add, no insertion", fn.loc(acc[1]))
+    ctx.ob("R10.2", "floor", n >= 1, "%d refusing path(s) in requests()" % n)
 
 
 def cap(ctx):
@@ -86,6 +210,11 @@ def cap(ctx):
             e = look(rk[1]) if rk and rk[0] == "Err" else None
             ctx.ob("R10.1", "full|ServerFull", e is not None and e[0] == "agg" and e[2] == "ServerFull" and not acc, "at capacity handle_new_connection returns ServerFull without accepting", fn.loc(lf.bb))
     ctx.ob("R10.1", "floor", n >= 1, "%d accepting path(s) in handle_new_connection" % n)
+    _insert_only_in_accept_path(ctx)
+
+
+def _insert_only_in_accept_path(ctx):
+    facts = ctx.facts
     # the insertion is only reachable through this function's closures
     ins = set()
     for f in facts.fns.values():
@@ -205,19 +334,52 @@ def sweep(ctx):
 
 
 def is_done(ctx, rule):
-    fn, lv = leaves(ctx, CC + "is_done")
+    """On every path on which is_done() may return true, the three facts are established -- by a test on the path or by the
+    returned expression itself (a conjunction): state == Closed, !pending_write(), in_flight_response_count == 0.
+    Spellings: `a && b && c`, a `matches!` over the tuple, a helper of a private sub-struct traversed inline."""
+    fn, lv = leaves(ctx, CC + "is_done", lower=True)
     true_paths = 0
+
+    def atoms(t, c, out):
+        """what the condition (t, c) establishes"""
+        x = srv.state_test(ctx.facts, t, c)
+        if x:
+            out["state"] = x[1] if out.get("state") is None else (out["state"] & x[1])
+            return
+        y = look(t)
+        neg = False
+        while y[0] == "un" and y[1] == "Not":
+            y, neg = look(y[2]), not neg
+        tv = truth(c)
+        if is_call(y, conn.P + "pending_write") and tv is not None:
+            out["pending"] = tv != neg
+            return
+        fld = lambda z: look(z)[0] == "field" and look(z)[3] == "in_flight_response_count"
+        if y[0] == "bin" and y[1] in ("Eq", "Ne") and tv is not None and ((fld(y[2]) and const_of(y[3]) == 0) or (fld(y[3]) and const_of(y[2]) == 0)):
+            out["zero"] = (tv != neg) if y[1] == "Eq" else (tv == neg)
+            return
+        if fld(y) and not neg:
+            if c == ("eq", 0):
+                out["zero"] = True
+            elif c[0] == "ne" and 0 in c[1]:
+                out["zero"] = False
+            return
+        if y[0] == "bin" and y[1] in ("BitAnd",) and tv is True and not neg:
+            atoms(y[2], ("ne", (0,)), out)
+            atoms(y[3], ("ne", (0,)), out)
+
     for lf in lv:
+        if lf.kind != "return":
+            continue
         r = look(lf.ret())
-        st = None
+        if r == ("const", False):
+            continue
+        true_paths += 1
+        est = {}
         for (t, c, _b) in lf.conds:
-            x = srv.state_test(ctx.facts, t, c)
-            if x:
-                st = x[1]
-        pw = conn.atom_truth(lf, lambda t: is_call(t, conn.P + "pending_write"))
-        can_true = r != ("const", False)
-        if can_true:
-            true_paths += 1
-            inflight = r[0] == "bin" and r[1] == "Eq" and look(r[2])[0] == "field" and look(r[2])[3] == "in_flight_response_count" and const_of(r[3]) == 0
-            ctx.ob(rule, "is_done|conditions", st == {"Closed"} and pw is False and (inflight or r == ("const", True) and False), "is_done() can be true only with state == Closed (%s), !pending_write() (%s) and in_flight_response_count == 0 (%s)" % (st, pw, inflight), fn.loc(lf.bb))
+            atoms(t, c, est)
+        if r != ("const", True):
+            atoms(r, ("ne", (0,)), est)      # the value returned is true
+        st, pw, zero = est.get("state"), est.get("pending"), est.get("zero")
+        ctx.ob(rule, "is_done|conditions", st == {"Closed"} and pw is False and zero is True, "is_done() can be true only with state == Closed (%s), !pending_write() (%s) and in_flight_response_count == 0 (%s)" % (sorted(st) if st else st, pw, zero), fn.loc(lf.bb))
     ctx.ob(rule, "is_done|one-true-path", true_paths == 1, "%d path(s) on which is_done() may be true" % true_paths, fn.loc(0))
